@@ -19,6 +19,7 @@ mod c18;
 mod c19;
 mod c20;
 mod hooks;
+#[cfg(feature = "zasync")]
 mod c07;
 mod c08;
 mod c09;
@@ -40,7 +41,9 @@ struct Ctx {
     c19: Option<c19::C19Ctx>,
     c13: Option<c13::HCtx>,
     c12: Option<c12::C12Ctx>,
+    #[cfg(feature = "zasync")]
     c07: Option<c07::C07Ctx>,
+    #[cfg(feature = "zasync")]
     c07h: Option<c07::HCtx>,
 }
 
@@ -106,6 +109,7 @@ fn exec_line(ctx: &mut Ctx, line: &str) -> String {
         "c10" => c10::exec(line),
         "c11" => c11::exec(line),
         "c14" => c14::exec(line),
+        #[cfg(feature = "zasync")]
         "c07" => {
             let (v, m) = parse_line(line);
             if second == "cfg" {
@@ -177,6 +181,7 @@ fn main() {
                 "c14" => c14::generate(&a.tier, a.seed),
                 "c13" => c13::generate(&a.tier, a.seed),
                 "c12" => c12::generate(&a.tier, a.seed),
+                #[cfg(feature = "zasync")]
                 "c07" => c07::generate(&a.tier, a.seed),
                 _ => { eprintln!("unknown property {}", prop); std::process::exit(2) }
             }
